@@ -237,6 +237,49 @@ initialization.init_mimetypes(config)
 context = initialization.init_ssl_context(config)
 server = initialization.get_server(config, context=context)
 t = threading.Thread(target=server.serve_forever, kwargs={"poll_interval": 0.1}, daemon=True)
+if len(sys.argv) > 3 and sys.argv[3] == "perturb":
+    # Schedule perturbation, installed from outside the code under test: the operations that are the slow part
+    # of a FIRST use (compiling a regular expression, eval of a configuration value, reading a configuration
+    # value) sleep a few milliseconds the first few times they are called with a given argument from a worker
+    # thread, and the interpreter switches threads as often as it can.  Nothing else changes.
+    import builtins, configparser, re, time
+    sys.setswitchinterval(1e-5)
+    _seen, _lk, _quiet = {}, threading.Lock(), (threading.main_thread(), t)
+    NAP, FIRST = float(sys.argv[4]), 4
+
+    def _nap(kind, key):
+        if threading.current_thread() in _quiet:
+            return
+        try:
+            hash(key)
+        except TypeError:
+            key = repr(key)[:200]
+        with _lk:
+            n = _seen.get((kind, key), 0)
+            _seen[(kind, key)] = n + 1
+        if n < FIRST:
+            time.sleep(NAP)
+
+    _compile, _eval, _get = re.compile, builtins.eval, configparser.RawConfigParser.get
+
+    def slow_compile(pattern, flags=0):
+        _nap("compile", pattern)
+        return _compile(pattern, flags)
+
+    def slow_eval(expr, g=None, l=None):
+        if g is None:
+            f = sys._getframe(1)
+            g, l = f.f_globals, f.f_locals
+        elif l is None:
+            l = g
+        _nap("eval", expr if isinstance(expr, str) else id(expr))
+        return _eval(expr, g, l)
+
+    def slow_get(self, section, option, *a, **k):
+        _nap("get", (section, option))
+        return _get(self, section, option, *a, **k)
+
+    re.compile, builtins.eval, configparser.RawConfigParser.get = slow_compile, slow_eval, slow_get
 t.start()
 ctl.write(json.dumps({"port": server.socket.getsockname()[1], "pid": os.getpid(), "type": type(server).__name__,
                       "tls": context is not None}) + "\n")
@@ -265,12 +308,13 @@ def _mask(b):
 
 
 class Server:
-    def __init__(self, repo, conf_path, logpath):
+    def __init__(self, repo, conf_path, logpath, perturb=None):
         env = dict(os.environ, PYTHONPATH=repo, PYTHONDONTWRITEBYTECODE="1")
         self.script = tempfile.NamedTemporaryFile("w", suffix=".py", delete=False)
         self.script.write(SERVER_SCRIPT)
         self.script.close()
-        self.p = subprocess.Popen([sys.executable, self.script.name, conf_path, logpath], stdin=subprocess.PIPE,
+        extra = ["perturb", str(perturb)] if perturb else []
+        self.p = subprocess.Popen([sys.executable, self.script.name, conf_path, logpath] + extra, stdin=subprocess.PIPE,
                                   stdout=subprocess.PIPE, stderr=subprocess.PIPE, text=True, cwd=repo, env=env)
         line = self.p.stdout.readline()
         if not line:
@@ -363,12 +407,17 @@ def _exchange(port, rq, barrier=None, handshake_first=True, timeout=30, connect_
     return data, err
 
 
-def _burst(port, rqs, stagger_handshake):
+def _burst(port, rqs, stagger_handshake, offsets=None):
+    """offsets: None = all clients released together by a barrier; else client i starts offsets[i] seconds after
+    the common start (staggered arrivals, no barrier)."""
     n = len(rqs)
-    barrier = threading.Barrier(n)
+    barrier = threading.Barrier(n) if offsets is None else None
     outs = [None] * n
+    t_start = time.time() + 0.05
 
     def run(i):
+        if offsets is not None:
+            time.sleep(max(0.0, t_start + offsets[i] - time.time()))
         outs[i] = _exchange(port, rqs[i], barrier, handshake_first=(not stagger_handshake or i % 2 == 0),
                             connect_late=(n > 32))
 
@@ -467,6 +516,36 @@ def c14_stress(job, drv):
                                 "probe_ok": (not e and _mask(d) == refs[probe_name]), "probe_error": e}
             finally:
                 b.stop()
+            # ---- perturbed start-up bursts (threads share the lazies; forked children each have their own) ----
+            out["perturbed"] = []
+            for pi, pj in enumerate(job.get("perturbed", []) if servertype == "ThreadingTCPServer" else []):
+                _clear_caches(w.root)
+                c = Server(repo, conf, os.path.join(w.tmp, "log-c%d-%s.txt" % (pi, servertype)), perturb=pj["nap"])
+                try:
+                    names = pj["names"]
+                    t0 = time.time()
+                    outs = _burst(c.port, [job["requests"][nm] for nm in names], False, offsets=pj["offsets"])
+                    bad = 0
+                    for i, (nm, (data, err)) in enumerate(zip(names, outs)):
+                        if err or _mask(data) != refs[nm]:
+                            bad += 1
+                            out["mismatches"].append({
+                                "phase": "perturbed start-up burst %d (N=%d, nap %s s, staggered)" % (pi, len(names), pj["nap"]),
+                                "request": nm, "client": i, "offset_s": pj["offsets"][i], "error": err, "empty": not data,
+                                "got": data[:400].decode("latin-1"), "expected": refs[nm][:400].decode("latin-1"),
+                                "burst": names, "perturbed": pj})
+                    # what the burst left in the caches is what later clients get
+                    for nm in pj["after"]:
+                        d, e = _exchange(c.port, job["requests"][nm])
+                        if e or _mask(d) != refs[nm]:
+                            bad += 1
+                            out["mismatches"].append({
+                                "phase": "after perturbed start-up burst %d" % pi, "request": nm, "error": e, "empty": not d,
+                                "got": d[:400].decode("latin-1"), "expected": refs[nm][:400].decode("latin-1"),
+                                "burst": names, "perturbed": pj})
+                    out["perturbed"].append({"n": len(names), "bad": bad, "nap_s": pj["nap"], "secs": round(time.time() - t0, 2)})
+                finally:
+                    c.stop()
             try:
                 with open(logb, errors="replace") as f:
                     lines = f.read().splitlines()
@@ -479,6 +558,127 @@ def c14_stress(job, drv):
         w.close()
 
 
+# ----------------------------------------------------------------------------
+# deterministic: preempt a first request at every line of every lazily-initialising function
+# ----------------------------------------------------------------------------
+def _lazy_codes():
+    """Code objects of every pygopherd function that assigns a module-level name (STORE_GLOBAL):
+    the lazy-initialisation sites, found in the loaded code, not listed by hand."""
+    import dis
+    import types
+    found = {}
+    for name, mod in list(sys.modules.items()):
+        if not (name == "pygopherd" or name.startswith("pygopherd.")) or mod is None or ".tests" in name:
+            continue
+        stack = [v for v in vars(mod).values() if isinstance(v, (types.FunctionType, type))]
+        seen = set()
+        while stack:
+            o = stack.pop()
+            if id(o) in seen:
+                continue
+            seen.add(id(o))
+            if isinstance(o, type):
+                if getattr(o, "__module__", None) == name:
+                    stack.extend(v for v in vars(o).values() if isinstance(v, (types.FunctionType, staticmethod, classmethod)))
+                continue
+            if isinstance(o, (staticmethod, classmethod)):
+                o = o.__func__
+            code = getattr(o, "__code__", None)
+            if code is None or getattr(o, "__module__", None) != name:
+                continue
+            if any(i.opname == "STORE_GLOBAL" for i in dis.get_instructions(code)):
+                found[code] = "%s.%s" % (name, o.__qualname__)
+    return found
+
+
+def c14_lazy(job, drv):
+    import implops_c10 as h
+    w = drv.World({"tree": job["tree"]})
+    try:
+        cfg = h.cacheless_config(drv, w.root, {})      # no directory cache: this leg is about the lazies only
+        codes = _lazy_codes()
+        pairs = job["pairs"]          # [[request name A, request name B], ...]
+        reqs = job["requests"]
+
+        def ask(nm):
+            rq = reqs[nm]
+            r = drv.serve_once(cfg, drv.s2b(rq["data"]), tls=rq["tls"])
+            return h.mask(drv.s2b(r["out"])), r
+
+        refs = {}
+        for nm in {x for p in pairs for x in p}:
+            drv.reset_lazies()
+            refs[nm], _ = ask(nm)          # alone, from a fresh start
+        trials = 0
+        bad = []
+        sites = {}
+        for a_name, b_name in pairs:
+            k = 0
+            while k < job.get("max_points", 400):
+                k += 1
+                drv.reset_lazies()
+                cv = threading.Condition()
+                st = {"paused": False, "go": False, "done": False, "where": None, "count": 0, "first": {}}
+                res = {}
+
+                def local(frame, event, arg, st=st, k=k):
+                    if event == "line" and st["first"].get(frame.f_code) is frame:
+                        st["count"] += 1
+                        if st["count"] == k:
+                            st["where"] = (codes[frame.f_code], frame.f_lineno)
+                            with cv:
+                                st["paused"] = True
+                                cv.notify_all()
+                                while not st["go"]:
+                                    cv.wait(10)
+                    return local
+
+                def tracer(frame, event, arg, st=st):
+                    if event == "call" and frame.f_code in codes and frame.f_code not in st["first"]:
+                        st["first"][frame.f_code] = frame       # only the first invocation of each site
+                        return local
+                    return None
+
+                def a_body():
+                    sys.settrace(tracer)
+                    try:
+                        res["a"] = ask(a_name)
+                    finally:
+                        sys.settrace(None)
+                        with cv:
+                            st["done"] = True
+                            cv.notify_all()
+
+                ta = threading.Thread(target=a_body, daemon=True)
+                ta.start()
+                with cv:
+                    while not st["paused"] and not st["done"]:
+                        cv.wait(10)
+                reached = st["paused"]
+                if reached:
+                    res["b"] = ask(b_name)          # B runs completely while A sits between two lines of a lazy site
+                with cv:
+                    st["go"] = True
+                    cv.notify_all()
+                ta.join(20)
+                if not reached:
+                    break
+                trials += 1
+                sites[st["where"][0]] = sites.get(st["where"][0], 0) + 1
+                for who, nm in (("a", a_name), ("b", b_name)):
+                    out, r = res[who]
+                    if out != refs[nm] or r["exc"]:
+                        bad.append({"preempted_request": a_name, "other_request": b_name, "point": k,
+                                    "site": st["where"][0], "before_line": st["where"][1], "wrong_answer_of": nm,
+                                    "which": "the preempted request" if who == "a" else "the request that ran in between",
+                                    "got": drv.b2s(out[:400]), "expected": drv.b2s(refs[nm][:400]), "exception": r["exc"]})
+        return {"trials": trials, "sites": sites, "bad": bad[:20], "nbad": len(bad), "lazy_sites": sorted(codes.values())}
+    finally:
+        sys.settrace(None)
+        w.close()
+
+
 def register(OPS, drv):
+    OPS["c14_lazy"] = lambda job: c14_lazy(job, drv)
     OPS["c14_sched"] = lambda job: c14_sched(job, drv)
     OPS["c14_stress"] = lambda job: c14_stress(job, drv)
